@@ -38,6 +38,14 @@ CHECKS = {
    text="As C05 for mh_sha1_murmur3_x64_128 with a 64-bit seed per stream: SHA part compared with the multi-hash model, 128-bit part with a MurmurHash3_x64_128 reference (h1=h2=seed), for every fragmentation and family sampled.",
    note="MurmurHash3 reference checked against published vectors at start-up.",
    tech=TECH + ": StreamSim, two reference models at finalize"),
+ "C13": dict(cat="fault_enumeration", sec="5 FipsGateSim",
+   text="FIPS_MODE=y build. Every (exported isal_* entry point x injected self-test state/fault kind) pair is enumerated (first call of run i is entry (i/6) mod N under fault kind i mod 6); order, arguments, XTS same-key variants and further injections are seeded. Oracle per call: return code per state, outputs byte-identical after a refusal, self-tests run exactly once in the first approved call, verdict recorded as PASSED/FAILED.",
+   note="Faults: _aes_self_tests/_sha_self_tests forced to fail (link-time wrap), KAT corruption of a kernel output behind a dispatch pointer (persistent or transient), preset states. isal_crypto_get_version* are called but not judged.",
+   tech=TECH + ": FipsGateSim, enumeration of entry point x fault kind with seeded sequences"),
+ "C17": dict(cat="exploration", sec="5 FipsRaceSim",
+   text="FIPS_MODE=y build. 1-8 coroutine tasks race through the real check/claim/spin/publish assembly (yield points from hook H4) under seeded uniform, bursty and PCT-style schedules with injected verdicts; history oracle: self-tests entered exactly once by one task, no success return and no kernel entry before the tests finished and passed, identical verdict for every call, bounded completion after the verdict is published.",
+   note="Sequentially consistent interleavings at shared-access granularity; x86-TSO store buffering not modelled. Liveness bounded in scheduling steps under a fair fallback scheduler. fips/self_tests_generic.c (non-x86) is not part of the x86_64 archive.",
+   tech=TECH + ": FipsRaceSim, coroutine scheduler over hooked synchronisation points, history oracle"),
 }
 
 NA = {
